@@ -2,6 +2,7 @@ package rules
 
 import (
 	"fmt"
+	"strings"
 	"go/token"
 	"go/types"
 
@@ -142,29 +143,25 @@ func runC15(e *Env) {
 		if !ok {
 			continue
 		}
-		bo, ok := ifi.Cond.(*ssa.BinOp)
-		if !ok {
-			continue
-		}
-		lc, ok := bo.X.(*ssa.Call)
-		if !ok {
-			continue
-		}
-		if bi, ok := lc.Call.Value.(*ssa.Builtin); !ok || bi.Name() != "len" {
-			continue
-		}
-		if ac, ok := lc.Call.Args[0].(*ssa.Call); !ok || !flow.CalleeIs(ac, "flag", "Args") {
-			continue
-		}
-		k, isK := flow.ConstInt(bo.Y)
-		if !isK {
-			continue
+		// the number of command-line arguments: len(flag.Args()) or flag.NArg(), compared with a constant in any spelling
+		isArgCount := func(v ssa.Value) bool {
+			c, ok := flow.StripConv(v).(*ssa.Call)
+			if !ok {
+				return false
+			}
+			if flow.CalleeIs(c, "flag", "NArg") {
+				return true
+			}
+			if bi, ok := c.Call.Value.(*ssa.Builtin); ok && bi.Name() == "len" {
+				ac, ok := c.Call.Args[0].(*ssa.Call)
+				return ok && flow.CalleeIs(ac, "flag", "Args")
+			}
+			return false
 		}
 		var fail *ssa.BasicBlock
-		switch {
-		case bo.Op == token.EQL && k == 0, bo.Op == token.LSS && k == 1, bo.Op == token.LEQ && k == 0:
+		if pt, ok := flow.AsIntPred(ifi.Cond, true); ok && isArgCount(pt.X) && pt.OnlyZero() {
 			fail = b.Succs[0]
-		case bo.Op == token.NEQ && k == 0, bo.Op == token.GTR && k == 0, bo.Op == token.GEQ && k == 1:
+		} else if pf, ok := flow.AsIntPred(ifi.Cond, false); ok && isArgCount(pf.X) && pf.OnlyZero() {
 			fail = b.Succs[1]
 		}
 		if fail != nil {
@@ -176,7 +173,7 @@ func runC15(e *Env) {
 
 	// policy flow
 	res := origin.NewResolver()
-	arg := loads[0].Call.Args[0]
+	arg, actx := through(loads[0].Call.Args[0], nil)
 	ld, _ := arg.(*ssa.UnOp)
 	var al *ssa.Alloc
 	if ld != nil {
@@ -200,8 +197,9 @@ func runC15(e *Env) {
 				found = true
 				o := res.Of(s.Val, nil, s)
 				good := false
-				if o.Kind == origin.KUn && o.Op == token.MUL && o.Args[0].Kind == origin.KCall && o.Args[0].Val != nil {
-					if ex, ok := o.Args[0].Val.(*ssa.Extract); ok && ex.Tuple == parses[0] && ex.Index == 0 {
+				if dl, ok := s.Val.(*ssa.UnOp); ok && dl.Op == token.MUL {
+					src, _ := through(dl.X, actx)
+					if ex, ok := src.(*ssa.Extract); ok && ex.Tuple == ssa.Value(parses[0]) && ex.Index == 0 {
 						good = true
 					}
 				}
@@ -278,12 +276,9 @@ func checkExitRegion(e *Env, p *load.Program, key string, from, fail *ssa.BasicB
 		}
 		if nr, dead := g.NoRet[b]; dead {
 			exits++
-			if flow.CalleeIs(nr, "os", "Exit") {
-				k, isK := flow.ConstInt(nr.Common().Args[0])
-				if !isK || k == 0 {
-					r.Bad("E3.exit", key+"/status", p.Pos(nr.Pos()), "os.Exit is called with status 0 (or a non-constant) on a failure edge")
-					ok = false
-				}
+			if bad := zeroExit(nr, 0); bad != nil {
+				r.Bad("E3.exit", key+"/status", p.Pos(bad.Pos()), "os.Exit is called with status 0 (or a non-constant) on a failure edge")
+				ok = false
 			}
 			continue
 		}
@@ -308,4 +303,36 @@ func checkExitRegion(e *Env, p *load.Program, key string, from, fail *ssa.BasicB
 	if ok {
 		r.OK("E3.exit", key, p.Pos(fail.Instrs[0].Pos()), "ends in os.Exit(non-zero) without starting a process")
 	}
+}
+
+
+// zeroExit: the never-returning call can end the process with status 0 (os.Exit(0) or a non-constant status), directly or
+// inside a helper of the module; returns the offending call.
+func zeroExit(nr ssa.CallInstruction, depth int) ssa.CallInstruction {
+	if depth > 4 {
+		return nr
+	}
+	if flow.CalleeIs(nr, "os", "Exit") || flow.CalleeIs(nr, "syscall", "Exit") {
+		k, isK := flow.ConstInt(nr.Common().Args[0])
+		if !isK || k == 0 {
+			return nr
+		}
+		return nil
+	}
+	f := flow.Callee(nr)
+	if f == nil || len(f.Blocks) == 0 || f.Pkg == nil || !strings.HasPrefix(f.Pkg.Pkg.Path(), load.Module) {
+		return nil // log.Fatal (status 1), log.Panic, runtime.Goexit
+	}
+	g := flow.G(f)
+	for _, b := range f.Blocks {
+		if !g.Live(b) {
+			continue
+		}
+		if inner, dead := g.NoRet[b]; dead {
+			if bad := zeroExit(inner, depth+1); bad != nil {
+				return bad
+			}
+		}
+	}
+	return nil
 }
